@@ -238,3 +238,156 @@ func verifControlTimerReset(t *time.Timer, d time.Duration) {
 	<-t.C
 }
 `
+
+// TICKER-ARG-POSITIVE (belief rule): a function that handles a zero duration does not hand it to time.NewTicker.
+func ruleTickerArgPositive() check.Rule {
+	return check.Rule{
+		Name:        "TICKER-ARG-POSITIVE",
+		NeedControl: true,
+		Doc:         "time.NewTicker panics for a non-positive duration. Contradiction rule: when a function of an armed package tests a duration parameter against zero (`d == 0`, `d <= 0`, `d != 0`, `d > 0`: it believes d may be zero) and passes an expression built from that parameter to time.NewTicker, the call is guarded by a condition that excludes zero — otherwise the zero case the function goes on to handle never gets that far (IntervalWithInitial(0, d) fails with \"non-positive interval for NewTicker\" instead of emitting its first value at once)",
+		Run: func(c *check.Ctx) {
+			m := c.M
+			n := 0
+			for _, p := range m.Pkgs {
+				armed := c.ArmedPkg(p.PkgPath)
+				info := p.TypesInfo
+				for _, fn := range funcNodes(p) {
+					body := funcBody(fn)
+					if body == nil {
+						continue
+					}
+					// duration parameters of the enclosing functions that are tested against zero somewhere in body
+					tested := map[types.Object]bool{}
+					ast.Inspect(body, func(x ast.Node) bool {
+						be, ok := x.(*ast.BinaryExpr)
+						if !ok {
+							return true
+						}
+						switch be.Op {
+						case token.EQL, token.NEQ, token.LEQ, token.GTR, token.LSS, token.GEQ:
+						default:
+							return true
+						}
+						for _, side := range [][2]ast.Expr{{be.X, be.Y}, {be.Y, be.X}} {
+							id, ok := ast.Unparen(side[0]).(*ast.Ident)
+							if !ok {
+								continue
+							}
+							v, ok := objOf(info, id).(*types.Var)
+							if !ok || !isParamVar(m, v) || v.Type().String() != "time.Duration" {
+								continue
+							}
+							if tv, ok := info.Types[side[1]]; ok && tv.Value != nil && tv.Value.String() == "0" {
+								tested[v] = true
+							}
+						}
+						return true
+					})
+					if len(tested) == 0 {
+						continue
+					}
+					ast.Inspect(body, func(x ast.Node) bool {
+						if l, ok := x.(*ast.FuncLit); ok && ast.Node(l) != fn {
+							return false
+						}
+						call, ok := x.(*ast.CallExpr)
+						if !ok || !model.IsPkgFunc(model.Callee(info, call), "time", "NewTicker") || len(call.Args) != 1 {
+							return true
+						}
+						var param types.Object
+						ast.Inspect(call.Args[0], func(z ast.Node) bool {
+							if id, ok := z.(*ast.Ident); ok && tested[objOf(info, id)] {
+								param = objOf(info, id)
+							}
+							return true
+						})
+						if param == nil {
+							return true
+						}
+						n++
+						key := fmt.Sprintf("%s/newticker-%s-positive", chainKey(m, p, m.EnclosingFuncs(p, fn), scLits(m)), param.Name())
+						guarded := guardedByEdge(body, call, func(cond ast.Expr, polarity bool) bool {
+							return excludesZero(info, cond, polarity, param)
+						})
+						if guarded {
+							if armed {
+								c.OK(key, call.Pos(), "guarded by a condition that excludes %s == 0", param.Name())
+							}
+						} else {
+							c.Report(armed, key, call.Pos(), "time.NewTicker receives a duration built from %s, which this function tests against zero elsewhere, without a guard that excludes zero: NewTicker panics for a non-positive duration, so the zero case the function handles is never reached", param.Name())
+						}
+						return true
+					})
+				}
+			}
+			c.Inc("newticker_on_tested_params", n)
+		},
+	}
+}
+
+// excludesZero: (cond == polarity) implies param != 0 (param > 0, param != 0, !(param == 0), !(param <= 0)).
+func excludesZero(info *types.Info, cond ast.Expr, polarity bool, param types.Object) bool {
+	cond = ast.Unparen(cond)
+	if u, ok := cond.(*ast.UnaryExpr); ok && u.Op == token.NOT {
+		return excludesZero(info, u.X, !polarity, param)
+	}
+	be, ok := cond.(*ast.BinaryExpr)
+	if !ok {
+		return false
+	}
+	switch be.Op {
+	case token.LAND:
+		if polarity {
+			return excludesZero(info, be.X, true, param) || excludesZero(info, be.Y, true, param)
+		}
+		return false
+	case token.LOR:
+		if !polarity {
+			return excludesZero(info, be.X, false, param) || excludesZero(info, be.Y, false, param)
+		}
+		return false
+	}
+	isP := func(e ast.Expr) bool {
+		id, ok := ast.Unparen(e).(*ast.Ident)
+		return ok && objOf(info, id) == param
+	}
+	isZ := func(e ast.Expr) bool {
+		tv, ok := info.Types[e]
+		return ok && tv.Value != nil && tv.Value.String() == "0"
+	}
+	op := be.Op
+	x, y := be.X, be.Y
+	if isZ(x) && isP(y) { // 0 < p  ->  p > 0
+		x, y = y, x
+		switch op {
+		case token.LSS:
+			op = token.GTR
+		case token.GTR:
+			op = token.LSS
+		case token.LEQ:
+			op = token.GEQ
+		case token.GEQ:
+			op = token.LEQ
+		}
+	}
+	if !isP(x) || !isZ(y) {
+		return false
+	}
+	switch op {
+	case token.GTR, token.NEQ:
+		return polarity
+	case token.EQL, token.LEQ:
+		return !polarity
+	}
+	return false
+}
+
+const controlsTickerArg = `
+func verifControlTickerZero(d time.Duration) *time.Ticker {
+	t := time.NewTicker(d * 2)
+	if d == 0 {
+		t.Reset(time.Second)
+	}
+	return t
+}
+`
